@@ -83,13 +83,35 @@ DUMPED (judged like the final dump).  Steps of different fields run field after 
 dump is the ordinary judgement (dump returns, width rule, re-parse = the model's records).  A caller-held list that
 is mutated AFTER it was assigned (lst = [..]; para[f] = lst; lst.append(..)) is driven on a throw-away object,
 counted (route:callerlist:*) and never judged.
+
+Constructor spellings and argument types (case['mode'] == 'ctor'): the paragraph text of the parsed cases above reaches
+the class as ONE positional argument.  This class hands the same kind of text over in every equivalent spelling of the
+call - cls(x), cls(sequence=x), with fields= (keyword or positional, before or behind sequence=), with encoding= /
+strict= / every parameter spelled out with its default - and in every kind of argument the constructor documents: str,
+bytes, list / tuple of str or bytes lines (with / without newline) and the ONE-SHOT sources io.StringIO, io.BytesIO,
+an open text file, an open binary file, generators of str / bytes lines, iter(list); and MAPPINGS that are not plain
+dicts: an already parsed generic Deb822 paragraph (made from str / bytes / lines / a file / iter_paragraphs / copy() /
+item assignment / a dict), Deb822Dict, OrderedDict, MappingProxyType (of a dict, an OrderedDict, a Deb822), UserDict,
+ChainMap, defaultdict, a bare collections.abc.Mapping, all holding the fields as raw text.  cls.iter_paragraphs gets
+the same text sources and spellings (plus use_apt_pkg / shared_storage spelled out) over documents of 1..3
+paragraphs, consumed by list(), a for loop, or next().  Judgement per paragraph = the ordinary one (records == model,
+dump returns, width rule, dump re-parses to the model), plus: a paragraph with NO field although fields were handed
+over is a finding of its own; iter_paragraphs yields exactly the paragraphs written; the dumped text goes once more
+through the SAME spelling and must give the model again; a mapping argument holds afterwards what it held before.
 """
+import collections
+import collections.abc
 import copy
 import io
 import itertools
 import json
+import os
 import random
 import re
+import tempfile
+import traceback
+import types
+import warnings
 
 from ..models import mvrecords as mv
 
@@ -160,6 +182,29 @@ RULE = ('One case = one paragraph of one class (Dsc, Changes, BuildInfo, PdiffIn
         'and with probability 0.1 per step dumped; every such intermediate dump and the final dump are judged like any built '
         'paragraph (dump returns, width rule, re-parse equals the model).  Release behaviour is set first, late, or left at its '
         'default.  A route case is non-trivial by the same rule as a single-dump case, applied to its final dump.  '
+        '(g) CONSTRUCTOR SPELLINGS AND ARGUMENT TYPES: generated paragraph text (presence subsets, all three layouts, hostile and '
+        'invisible-character tokens, PGP armour for Dsc / Changes / BuildInfo in a fifth of the cases, optional leading empty line, '
+        'with / without final newline / with a trailing empty line) handed to the class in every combination of configuration x '
+        'text source x call spelling (enumerated): sources str, bytes, list of lines, list of lines without newline, list of bytes '
+        'lines, tuple (re-usable) and io.StringIO, io.BytesIO, open text file on disk (encoding utf-8), open binary file on disk, '
+        'generator of lines, generator of lines without newline, generator of bytes lines, iter(list of lines), iter(list of bytes '
+        'lines) (one-shot; files closed right after the constructor returned in half of the cases); spellings cls(x), '
+        'cls(sequence=x), cls(sequence=x, fields=F), cls(fields=F, sequence=x), cls(x, F), cls(x, fields=F), cls(sequence=x, '
+        'encoding="utf-8"), cls(x, encoding="utf-8"), cls(sequence=x, strict={"whitespace-separates-paragraphs": True|False}), '
+        'cls(sequence=x, fields=None, encoding="utf-8", strict=None), cls(x, None, None, "utf-8"); F = all fields / the structured '
+        'ones / a random subset, spelled exactly as in the text; the same sources x the same spellings plus use_apt_pkg=False, '
+        'use_apt_pkg=True (python3-apt is absent: warns and falls back), shared_storage=True, and all six parameters spelled out, '
+        'for cls.iter_paragraphs over documents of 1, 2 or 3 paragraphs separated by one or two empty lines, the iterator consumed '
+        'by list() / a for loop that judges and dumps each paragraph before the next is pulled / explicit next(); and every '
+        'configuration x mapping type x {cls(m), cls(sequence=m), cls(sequence=m, fields=F), cls(sequence=m, encoding=..), all '
+        'spelled out} for mappings holding the fields of one paragraph as raw text: generic Deb822 paragraph parsed from str / bytes '
+        '/ list of lines / StringIO / Deb822.iter_paragraphs, its copy(), one filled by item assignment, one made from a dict; '
+        'Deb822Dict from pairs / from a dict / filled by item assignment; dict; OrderedDict; MappingProxyType of a dict / of an '
+        'OrderedDict / of a Deb822; UserDict; a class that is only a collections.abc.Mapping; ChainMap; defaultdict; and an object '
+        'of the class itself (holds records: counted, judged only if accepted).  Every paragraph obtained is judged like any parsed '
+        'paragraph; afterwards the dumped text (for iter_paragraphs the dumped paragraphs joined into one document, for mappings a '
+        'mapping of the same type made from the dump) goes through the same source form and spelling once more.  A ctor case is '
+        'non-trivial when one of its paragraphs satisfies the single-dump rule.  '
         'A single-dump case is non-trivial when at least one structured field of the class is absent and at least one present '
         'field has >= 2 records; a history is non-trivial when it has >= 2 judged dumps and that condition held at one of them.')
 ASSUMPTIONS = [
@@ -237,6 +282,50 @@ ASSUMPTIONS = [
     'its keys is not part of the record (plain dict in documented or reversed order, OrderedDict, Deb822Dict all denote the same record)',
     'build routes: an empty paragraph of the class made just before, and one made just after, the incrementally built one must show no '
     'structured field (records given to one paragraph do not appear in another)',
+    'constructor spellings: the docstring of Deb822 documents the first parameter as `sequence` ("a string, or any object that returns a '
+    'line of input each time, normally a file ... Alternately, sequence can be a dict that contains the initial key-value pairs") and '
+    'iter_paragraphs takes "sequence: same as in __init__", so cls(x) and cls(sequence=x), with or without the other documented '
+    'parameters spelled out with values that change nothing (encoding "utf-8" - every byte source is UTF-8 and text files are opened '
+    'with encoding="utf-8" whatever the locale -, strict None or either value of whitespace-separates-paragraphs on text without '
+    'whitespace-only lines, fields None, use_apt_pkg False, shared_storage either value: "not used"), denote the same parse.  '
+    'Established on the unchanged tree before judging: every source form x spelling x class gives the paragraph the classic cls(str) '
+    'gives; no disagreement was seen.  use_apt_pkg=True without python3-apt is documented to warn and use the internal parser: the '
+    'warning is recorded inside warnings.catch_warnings and counted, never judged',
+    'constructor spellings, one-shot sources: a StringIO / BytesIO / open file / generator / iterator is handed over fresh, positioned '
+    'at its start, and never used by the harness afterwards except close(); in half of the constructor cases a file object is closed '
+    'right after the constructor returned and BEFORE the object is read (the ubiquitous `with open(..) as f: d = Dsc(f)` idiom; the '
+    'unchanged tree parses eagerly).  For iter_paragraphs the source is closed only after the iterator was consumed.  Lines are cut at '
+    '"\\n" only; a list / generator "without newline" is text.split("\\n") (it ends with an empty string when the text ends with a '
+    'newline).  Nothing is demanded about what is left in a one-shot source after the constructor took its paragraph',
+    'constructor spellings, fields=F: F holds field names spelled exactly as the text spells them (the unchanged tree compares the '
+    'spelling as written) and every paragraph of the case has at least one listed field (iter_paragraphs ends at the first paragraph '
+    'that comes out empty).  A LISTED structured field must be exposed with the model\'s records.  "The rest will be discarded" is '
+    'documented but is not part of this property: a structured field that is NOT listed may be absent; if the object shows it '
+    'nevertheless (the unchanged tree does for mapping arguments, where fields= is ignored) it must show the right records, and it '
+    'then takes part in the dump judgement.  An object with NO field at all although listed fields were handed over is a violation',
+    'constructor spellings, mappings: the mapping holds every field of ONE generated paragraph as raw text in the form deb822 mappings '
+    'hold text - what follows the colon on the field line, blanks stripped, then "\\n" + each continuation line verbatim (so "a 1 x", '
+    '"\\n a 1 x\\n b 2 y", "a 1 x\\n b 2 y" for the three layouts); own splitter, and a generic Deb822 paragraph that does not hold '
+    'exactly that (not this property\'s business) makes the case unjudged (counted ctor:map:<type>:source-does-not-hold-the-raw-text; '
+    'never seen).  A constructor MAY REFUSE a mapping (any exception from the constructor call itself): counted '
+    'ctor:map:<type>:refused:<exception>, never judged.  Established on the unchanged tree: every listed mapping type with raw-text '
+    'values is accepted by all five classes and the structured fields come out as records exactly as when the same text is parsed '
+    'directly; an object of the class itself (values are record lists) is refused with AttributeError unless it has no structured '
+    'field.  What is accepted is judged like a parsed paragraph - but only after the CONTROL cls(text) of the same text was seen to '
+    'expose the model\'s records (otherwise the ordinary parse finding is reported).  Only the total number of judged mapping '
+    'constructions has a floor (M.ctor.map), not the acceptance of any single mapping type',
+    'constructor spellings, mappings: "sequence can be a dict that contains the INITIAL key-value pairs" is read as: the constructor '
+    'leaves its argument alone (the mapping holds afterwards exactly the pairs it held before; also after the new paragraph got a '
+    'record appended or a field deleted) and the paragraph does not follow what the caller does to ITS mapping afterwards (one '
+    'structured key deleted or re-assigned in a mutable mapping; the paragraph still shows the model\'s records).  Both are plain '
+    'copy semantics of dict(m); the unchanged tree has them',
+    'constructor spellings, iter_paragraphs: a document is 1..3 generated paragraphs of one class, optionally one leading empty line, '
+    'separated by one or two EMPTY lines (no whitespace-only lines, no comments), ending with / without newline or with one extra '
+    'empty line; a PGP-armoured document is one paragraph.  Exactly the written paragraphs must be yielded, in order (at most two '
+    'more are pulled, to see a surplus).  In the for / next modes each paragraph is judged and dumped before the next one is pulled',
+    'constructor spellings: "the dump re-parses to the records" is judged twice - with the classic cls(dumped str) like everywhere '
+    'else, and with the dumped text handed over through the same source form and call spelling as the original (a mapping of the '
+    'same type is made from the dump with the harness\'s splitter or, for the deb822-* types, by the generic Deb822 parser)',
 ]
 ANCHORS = ['debian.deb822:_multivalued.__init__',
            'debian.deb822:_multivalued.get_as_string',
@@ -2403,6 +2492,178 @@ def route_enumerated():
     return out
 
 
+# ---------------------------------------------------------------------------
+# CONSTRUCTOR SPELLINGS AND ARGUMENT TYPES (case['mode'] == 'ctor').  The paragraph text of the ordinary parsed
+# cases reaches the class through ONE positional argument in seven forms.  Here the same kind of text (same
+# generator: presence subsets, three layouts, hostile / invisible tokens, PGP armour for the .dsc-like classes) is
+# handed over in every spelling the constructor signature allows and in every kind of argument it documents:
+#
+#   case['api'] == 'ctor'   cls(...) of ONE paragraph
+#       'src'   a text source  - re-usable: str | bytes | list | list-nonl | list-bytes | tuple
+#                              - ONE-SHOT : stringio | bytesio | textfile | binaryfile (open files on disk) |
+#                                           gen | gen-nonl | gen-bytes (generators of lines) | iter-list | iter-bytes
+#               or a MAPPING   - 'map:<type>', see CTOR_MAPS (an already parsed generic Deb822 paragraph in several
+#                                makings, Deb822Dict, dict, OrderedDict, MappingProxyType, UserDict, ChainMap,
+#                                defaultdict, a bare collections.abc.Mapping; same-class object = counted only)
+#       'call'  pos | kw | kw+fields | fields+kw | pos+fields | pos+fields-kw | kw+encoding | pos+encoding |
+#               kw+strict | kw+all | pos-all            (kw = the keyword spelling cls(sequence=...))
+#   case['api'] == 'iter'   cls.iter_paragraphs(...) of a document of 1..3 paragraphs, same sources (no mappings),
+#       'call'  the same spellings plus kw+apt-false | kw+apt-requested | kw+shared; 'consume': list | for | next
+#
+# Judgement = the ordinary one, per paragraph: records exposed == model, dump() returns, width rule, the dump
+# re-parses (classic cls(str)) to the model - plus: a paragraph that comes out with NO field although the text /
+# mapping had fields is reported as such; the number of paragraphs iter_paragraphs yields is the number written;
+# the dumped text is parsed once more THROUGH THE SAME SPELLING and must give the model again; a mapping handed to
+# the constructor still holds what it held.
+CTOR_SRC_REUSABLE = ('str', 'bytes', 'list', 'list-nonl', 'list-bytes', 'tuple')
+CTOR_SRC_ONESHOT = ('stringio', 'bytesio', 'textfile', 'binaryfile', 'gen', 'gen-nonl', 'gen-bytes', 'iter-list',
+                    'iter-bytes')
+CTOR_SRC = CTOR_SRC_REUSABLE + CTOR_SRC_ONESHOT
+CTOR_CALLS = ('pos', 'kw', 'kw+fields', 'fields+kw', 'pos+fields', 'pos+fields-kw', 'kw+encoding', 'pos+encoding',
+              'kw+strict', 'kw+all', 'pos-all')
+ITER_CALLS = CTOR_CALLS + ('kw+apt-false', 'kw+apt-requested', 'kw+shared')
+CTOR_MAPS = ('deb822', 'deb822-from-bytes', 'deb822-from-lines', 'deb822-from-file', 'deb822-from-iter_paragraphs',
+             'deb822-copy', 'deb822-built', 'deb822-from-dict', 'deb822dict', 'deb822dict-from-dict',
+             'deb822dict-built', 'dict', 'ordereddict', 'mappingproxy', 'mappingproxy-of-ordereddict',
+             'mappingproxy-of-deb822', 'userdict', 'abc-mapping', 'chainmap', 'defaultdict', 'same-class')
+MAP_CALLS = ('pos', 'kw', 'kw+fields', 'kw+encoding', 'kw+all')
+ITER_CONSUME = ('list', 'for', 'next')
+GPG_CLASSES = ('Dsc', 'Changes', 'BuildInfo')
+CTOR_REPS = {'quick': 1, 'thorough': 40}        # per (configuration, source form, call spelling), ctor and iter each
+CTOR_MAP_REPS = {'quick': 1, 'thorough': 60}    # per (configuration, mapping type, call spelling)
+
+
+def call_class(call):
+    return 'keyword' if call.startswith(('kw', 'fields+kw')) else 'positional'
+
+
+def src_class(src):
+    return 'mapping' if src.startswith('map:') else ('one-shot' if src in CTOR_SRC_ONESHOT else 're-usable')
+
+
+def raw_fields(text):
+    """[[field name as spelled, raw value]] of ONE paragraph text (own ten-line splitter, not the library's): the
+    raw value is what follows the colon on the field line, blanks stripped, plus '\\n' + every continuation line
+    verbatim - the form in which deb822 mappings hold a field as text."""
+    out = []
+    for line in text.split('\n'):
+        if not line:
+            continue
+        if line[0] in ' \t':
+            if out:
+                out[-1][1] += '\n' + line
+            continue
+        key, _, rest = line.partition(':')
+        out.append([key, rest.strip(' ')])
+    return out
+
+
+def ctor_doc(case):
+    """The text handed over: lead + paragraphs joined by their separators + tail."""
+    pars = case['pars']
+    if case.get('signed'):
+        return sign(pars[0]['text'])
+    out = case.get('lead', '')
+    for i, p in enumerate(pars):
+        if i:
+            out += case['seps'][i - 1]
+        out += p['text']
+    tail = case.get('tail', 'nl')
+    if tail == 'nonl':
+        out = out[:-1]
+    elif tail == 'blank':
+        out += '\n'
+    return out
+
+
+def ctor_enumerated():
+    """(api, clsname, behavior, src, call): every configuration x every text source form x every call spelling for
+    the constructor and for iter_paragraphs, and every configuration x mapping type x call spelling."""
+    out = []
+    for clsname, behavior in mv.CONFIGS:
+        for src in CTOR_SRC:
+            for call in CTOR_CALLS:
+                out.append(('ctor', clsname, behavior, src, call))
+            for call in ITER_CALLS:
+                out.append(('iter', clsname, behavior, src, call))
+    return out
+
+
+def ctor_map_enumerated():
+    out = []
+    for clsname, behavior in mv.CONFIGS:
+        for m in CTOR_MAPS:
+            for call in MAP_CALLS:
+                out.append(('ctor', clsname, behavior, 'map:' + m, call))
+    return out
+
+
+def gen_ctor_case(r, item):
+    """The knobs that are not enumerated (PGP armour, number of paragraphs, separators, way of consuming the
+    iterator, early close of a file, which fields are listed) are drawn."""
+    api, clsname, behavior, src, call = item
+    table = mv.DOC[clsname]
+    fields = sorted(table)
+    is_map = src.startswith('map:')
+    npar = 1 if api == 'ctor' else r.choice((1, 2, 2, 3))
+    signed = (not is_map) and clsname in GPG_CLASSES and r.random() < 0.2
+    if signed:
+        npar = 1
+    inv_p = r.choice([None, None, 0.1])
+    pars = []
+    for _ in range(npar):
+        p = r.choice([0.15, 0.5, 0.5, 0.85, 1.0])
+        sub = [f for f in fields if r.random() < p]
+        if not sub and r.random() < 0.8:
+            sub = [r.choice(fields)]
+        c = gen_case(r, clsname, behavior, sub, 'text', inv_p=inv_p, input_form='str')
+        text = c['text'] if c['text'].endswith('\n') else c['text'] + '\n'
+        pars.append({'text': text, 'expect': c['expect'], 'forms': c['forms']})
+    case = {'cls': clsname, 'behavior': behavior, 'mode': 'ctor', 'api': api, 'src': src, 'call': call, 'pars': pars,
+            'dump_via': r.choice(VIAS)}
+    if signed:
+        case['signed'] = True
+    else:
+        case['lead'] = '\n' if r.random() < 0.12 else ''
+        case['seps'] = [r.choice(['\n', '\n', '\n\n']) for _ in range(npar - 1)]
+        case['tail'] = r.choice(['nl', 'nl', 'nonl', 'blank'])
+    if 'fields' in call:
+        # lower-case names that are listed; every paragraph keeps >= 1 listed field (an iterator stops at a paragraph
+        # that comes out empty); the argument holds the spellings exactly as the text has them
+        style = r.choice(['all', 'structured', 'subset', 'subset'])
+        listed = set()
+        for p in pars:
+            keys = [kv[0] for kv in raw_fields(p['text'])]
+            low = [x.lower() for x in keys]
+            if style == 'all':
+                listed.update(low)
+            elif style == 'structured':
+                listed.update(x for x in low if x in table)
+            else:
+                listed.update(x for x in low if r.random() < 0.5)
+        for p in pars:
+            low = [kv[0].lower() for kv in raw_fields(p['text'])]
+            if not listed.intersection(low):
+                listed.add(r.choice(low))
+        spelled = []
+        for p in pars:
+            for kv in raw_fields(p['text']):
+                if kv[0].lower() in listed and kv[0] not in spelled:
+                    spelled.append(kv[0])
+        r.shuffle(spelled)
+        case['fields'] = spelled
+    if call == 'kw+strict':
+        case['strict_value'] = r.random() < 0.5
+    if api == 'iter':
+        case['consume'] = r.choice(ITER_CONSUME)
+    elif not is_map:
+        case['close'] = r.choice(['early', 'late'])
+    if is_map:
+        case['then'] = r.choice(['none', 'change-source', 'change-object'])
+    case['wl'] = ['ctor-enum', api, src, call]
+    return case
+
+
 # INV-FLOORS / LPOS-FLOORS: both enumerations are deterministic - demand half of what they must produce, per
 # (configuration, structured field, sub-field column), per (character, position) and per (configuration,
 # position of the longest size, record count), so that a run which skips SOME column / character / position
@@ -2419,6 +2680,16 @@ def _enum_floors():
         for (clsname, behavior, f, t) in route_enumerated():
             want['route-enum:%s:%s' % (tag_of(clsname, behavior), t)] += ROUTE_ENUM_REPS[tier]
             want['route-enum:field:%s:%s' % (clsname, f)] += ROUTE_ENUM_REPS[tier]
+        # constructor spellings: every (api, source form, call spelling), every (api, configuration), every mapping
+        # type and (mapping type, call spelling) - 'driven', not 'accepted': whether a mapping is accepted is the
+        # library's choice
+        for (api, clsname, behavior, src, call) in ctor_enumerated():
+            want['ctor-enum:%s:%s:%s' % (api, src, call)] += CTOR_REPS[tier]
+            want['ctor-enum:%s:%s' % (api, tag_of(clsname, behavior))] += CTOR_REPS[tier]
+        for (api, clsname, behavior, src, call) in ctor_map_enumerated():
+            want['ctor-enum:%s:%s:%s' % (api, src, call)] += CTOR_MAP_REPS[tier]
+            want['ctor:map:%s:driven' % src[4:]] += CTOR_MAP_REPS[tier]
+            want['ctor:map-call:%s:%s' % (src[4:], call)] += CTOR_MAP_REPS[tier]
         for k, v in want.items():
             FLOORS[tier]['counters'][k] = v // 2
 
@@ -2438,7 +2709,11 @@ def setup(ctx):
         'position of the strictly longest size: every configuration x structured field x 2..6 records x first-only / '
         'last-only / one-middle-only x {parsed text, built object}, %d fillings each' % LPOS_REPS[ctx.tier],
         'build routes: every configuration x structured field x each of %d routes (%s), %d paragraphs each'
-        % (len(ROUTE_TEMPLATES), ' '.join(ROUTE_TEMPLATES), ROUTE_ENUM_REPS[ctx.tier])]
+        % (len(ROUTE_TEMPLATES), ' '.join(ROUTE_TEMPLATES), ROUTE_ENUM_REPS[ctx.tier]),
+        'constructor spellings: every configuration x text source form (%s) x call spelling (constructor: %s; iter_paragraphs: '
+        'those plus %s), %d case(s) each; every configuration x mapping type (%s) x call spelling (%s), %d case(s) each'
+        % (' '.join(CTOR_SRC), ' '.join(CTOR_CALLS), ' '.join(ITER_CALLS[len(CTOR_CALLS):]), CTOR_REPS[ctx.tier],
+           ' '.join(CTOR_MAPS), ' '.join(MAP_CALLS), CTOR_MAP_REPS[ctx.tier])]
 
 
 def cases(ctx):
@@ -2532,6 +2807,20 @@ def cases(ctx):
                 case = gen_route_case(rr, clsname, behavior, sub, want={f: t})
                 case['wl'] = ['route-enum', f, t]
                 yield case
+            i += 1
+    # constructor spellings / argument types: every configuration x source form x call spelling for the constructor
+    # and for iter_paragraphs, every configuration x mapping type x call spelling
+    i = 0
+    for item in ctor_enumerated():
+        for rep in range(CTOR_REPS[ctx.tier]):
+            if ctx.mine(i):
+                yield gen_ctor_case(ctx.rng('ctor-enum', i), item)
+            i += 1
+    i = 0
+    for item in ctor_map_enumerated():
+        for rep in range(CTOR_MAP_REPS[ctx.tier]):
+            if ctx.mine(i):
+                yield gen_ctor_case(ctx.rng('ctor-map-enum', i), item)
             i += 1
     r = ctx.rng('route-par')
     for i in range(ctx.size(ROUTE_RANDOM['quick'], ROUTE_RANDOM['thorough'])):
@@ -2769,6 +3058,7 @@ def dump_and_judge(ctx, cls, clsname, obj, state, via, origin, suffix=''):
     if not isinstance(txt, str):
         ctx.violation('dump-returns-non-text' + suffix, 'dump() returned %r' % (txt,))
         return False
+    state['last_dump'] = txt
 
     if clsname in mv.ALIGNED:
         if not check_alignment(ctx, clsname, behavior, txt, expect, suffix):
@@ -3458,6 +3748,545 @@ def run_route(ctx, deb822, cls, clsname, case):
         ctx.mon('M.route.src-unchanged')
 
 
+# ---------------------------------------------------------------------------
+# constructor spellings / argument types: the live side
+
+class _BareMapping(collections.abc.Mapping):
+    """A mapping that is nothing but a collections.abc.Mapping (no dict, no Deb822Dict)."""
+
+    def __init__(self, pairs):
+        self._d = dict(pairs)
+
+    def __getitem__(self, key):
+        return self._d[key]
+
+    def __iter__(self):
+        return iter(self._d)
+
+    def __len__(self):
+        return len(self._d)
+
+
+_CTOR_DIR = []
+MUTABLE_MAPS = frozenset(['deb822', 'deb822-from-bytes', 'deb822-from-lines', 'deb822-from-file',
+                          'deb822-from-iter_paragraphs', 'deb822-copy', 'deb822-built', 'deb822-from-dict', 'deb822dict',
+                          'deb822dict-from-dict', 'deb822dict-built', 'dict', 'ordereddict', 'userdict', 'chainmap',
+                          'defaultdict'])
+
+
+def _ctor_dir(ctx):
+    if not _CTOR_DIR:
+        d = tempfile.mkdtemp(prefix='vp-C12-', dir='/dev/shm' if os.path.isdir('/dev/shm') else None)
+        ctx._tmpdirs.append(d)
+        _CTOR_DIR.append(d)
+    return _CTOR_DIR[0]
+
+
+def _lines_nl(text):
+    parts = text.split('\n')
+    last = parts.pop()
+    return [p + '\n' for p in parts] + ([last] if last else [])
+
+
+def ctor_source(ctx, form, text):
+    """(the argument object, close() or None) for one text source form."""
+    if form == 'str':
+        return text, None
+    if form == 'bytes':
+        return text.encode('utf-8'), None
+    if form == 'list':
+        return _lines_nl(text), None
+    if form == 'list-nonl':
+        return text.split('\n'), None
+    if form == 'list-bytes':
+        return [l.encode('utf-8') for l in _lines_nl(text)], None
+    if form == 'tuple':
+        return tuple(_lines_nl(text)), None
+    if form == 'stringio':
+        f = io.StringIO(text)
+        return f, f.close
+    if form == 'bytesio':
+        f = io.BytesIO(text.encode('utf-8'))
+        return f, f.close
+    if form in ('textfile', 'binaryfile'):
+        path = os.path.join(_ctor_dir(ctx), 'input')
+        with open(path, 'wb') as f:
+            f.write(text.encode('utf-8'))
+        f = open(path, 'r', encoding='utf-8') if form == 'textfile' else open(path, 'rb')
+        return f, f.close
+    if form == 'gen':
+        return (l for l in _lines_nl(text)), None
+    if form == 'gen-nonl':
+        return (l for l in text.split('\n')), None
+    if form == 'gen-bytes':
+        return (l.encode('utf-8') for l in _lines_nl(text)), None
+    if form == 'iter-list':
+        return iter(_lines_nl(text)), None
+    if form == 'iter-bytes':
+        return iter([l.encode('utf-8') for l in _lines_nl(text)]), None
+    raise ValueError('unknown source form %r' % (form,))
+
+
+def ctor_mapping(deb822, cls, mtype, text):
+    """The mapping handed to the constructor: the fields of ONE paragraph as raw text (same-class: as records)."""
+    raw = [tuple(kv) for kv in raw_fields(text)]
+    if mtype == 'deb822':
+        return deb822.Deb822(text)
+    if mtype == 'deb822-from-bytes':
+        return deb822.Deb822(text.encode('utf-8'))
+    if mtype == 'deb822-from-lines':
+        return deb822.Deb822(_lines_nl(text))
+    if mtype == 'deb822-from-file':
+        return deb822.Deb822(io.StringIO(text))
+    if mtype == 'deb822-from-iter_paragraphs':
+        return next(iter(deb822.Deb822.iter_paragraphs(text)))
+    if mtype == 'deb822-copy':
+        return deb822.Deb822(text).copy()
+    if mtype == 'deb822-built':
+        m = deb822.Deb822()
+        for k, v in raw:
+            m[k] = v
+        return m
+    if mtype == 'deb822-from-dict':
+        return deb822.Deb822(dict(raw))
+    if mtype == 'deb822dict':
+        return deb822.Deb822Dict(raw)
+    if mtype == 'deb822dict-from-dict':
+        return deb822.Deb822Dict(dict(raw))
+    if mtype == 'deb822dict-built':
+        m = deb822.Deb822Dict()
+        for k, v in raw:
+            m[k] = v
+        return m
+    if mtype == 'dict':
+        return dict(raw)
+    if mtype == 'ordereddict':
+        return collections.OrderedDict(raw)
+    if mtype == 'mappingproxy':
+        return types.MappingProxyType(dict(raw))
+    if mtype == 'mappingproxy-of-ordereddict':
+        return types.MappingProxyType(collections.OrderedDict(raw))
+    if mtype == 'mappingproxy-of-deb822':
+        return types.MappingProxyType(deb822.Deb822(text))
+    if mtype == 'userdict':
+        return collections.UserDict(raw)
+    if mtype == 'abc-mapping':
+        return _BareMapping(raw)
+    if mtype == 'chainmap':
+        return collections.ChainMap(dict(raw))
+    if mtype == 'defaultdict':
+        return collections.defaultdict(str, raw)
+    if mtype == 'same-class':
+        return cls(text)
+    raise ValueError('unknown mapping type %r' % (mtype,))
+
+
+def ctor_invoke(cls, api, call, x, case):
+    """The call in the spelling under test; for api 'iter' the (lazy) iterator."""
+    target = cls if api == 'ctor' else cls.iter_paragraphs
+    F = case.get('fields')
+    if call == 'pos':
+        return target(x)
+    if call == 'kw':
+        return target(sequence=x)
+    if call == 'kw+fields':
+        return target(sequence=x, fields=list(F))
+    if call == 'fields+kw':
+        return target(fields=list(F), sequence=x)
+    if call == 'pos+fields':
+        return target(x, list(F))
+    if call == 'pos+fields-kw':
+        return target(x, fields=list(F))
+    if call == 'kw+encoding':
+        return target(sequence=x, encoding='utf-8')
+    if call == 'pos+encoding':
+        return target(x, encoding='utf-8')
+    if call == 'kw+strict':
+        return target(sequence=x, strict={'whitespace-separates-paragraphs': bool(case.get('strict_value'))})
+    if call == 'kw+all':
+        if api == 'ctor':
+            return target(sequence=x, fields=None, encoding='utf-8', strict=None)
+        return target(sequence=x, fields=None, use_apt_pkg=False, shared_storage=False, encoding='utf-8', strict=None)
+    if call == 'pos-all':
+        if api == 'ctor':
+            return target(x, None, None, 'utf-8')
+        return target(x, None, False, False, 'utf-8')
+    if call == 'kw+apt-false':
+        return target(sequence=x, use_apt_pkg=False)
+    if call == 'kw+apt-requested':
+        return target(sequence=x, use_apt_pkg=True)
+    if call == 'kw+shared':
+        return target(sequence=x, shared_storage=True)
+    raise ValueError('unknown call spelling %r' % (call,))
+
+
+def ctor_tag(case):
+    return '%s/%s-source/%s-call' % ('constructor' if case['api'] == 'ctor' else 'iter_paragraphs',
+                                     src_class(case['src']), call_class(case['call']))
+
+
+def ctor_describe(case):
+    return '%s %s from %s, call spelling %r%s' % (
+        case['cls'], 'constructor' if case['api'] == 'ctor' else 'iter_paragraphs', case['src'], case['call'],
+        ' fields=%r' % (case['fields'],) if case.get('fields') is not None else '')
+
+
+def ctor_expect(case, obj, par):
+    """The records demanded of one paragraph object.  Without fields= : every structured field written.  With
+    fields= : the listed ones must be there; one that is not listed may have been discarded - if the object shows
+    it nevertheless it must show the right records."""
+    if case.get('fields') is None:
+        return par['expect']
+    listed = set(x.lower() for x in case['fields'])
+    return dict((f, recs) for f, recs in par['expect'].items() if f in listed or f in obj)
+
+
+def ctor_compare(ctx, case, obj, par, stage, tally=False):
+    """None, or (kind, message): the paragraph object against the model of the paragraph written."""
+    table = mv.DOC[case['cls']]
+    try:
+        n = len(obj)
+    except Exception as e:
+        return 'len-raises-%s' % type(e).__name__, 'len() of the paragraph raised %r' % (e,)
+    if n == 0 and raw_fields(par['text']):
+        return 'paragraph-comes-out-empty', ('the paragraph has NO field at all although %d were handed over (%s)'
+                                             % (len(raw_fields(par['text'])), stage))
+    expect = ctor_expect(case, obj, par)
+    if case.get('fields') is not None and tally:
+        listed = set(x.lower() for x in case['fields'])
+        for f in par['expect']:
+            ctx.count('ctor:fields:%s:structured-field-%s'
+                      % (src_class(case['src']),
+                         'listed' if f in listed else ('unlisted-kept' if f in expect else 'unlisted-dropped')))
+    bad = compare_records(obj, table, expect)
+    if bad:
+        return bad[1], bad[2]
+    return None
+
+
+def ctor_state(case, obj, par):
+    expect = ctor_expect(case, obj, par)
+    return {'recs': copy.deepcopy(expect),
+            'form': dict((f, 'single' if par['forms'][f] == 'single' else 'list') for f in expect),
+            'behavior': case['behavior'],
+            'mixed': set(f for f in expect if par['forms'][f] == 'mixed')}
+
+
+def ctor_paragraph(ctx, deb822, cls, case, obj, par, stage):
+    """The ordinary judgement of one paragraph object: records == model, dump returns, width rule, the dump
+    re-parses to the model.  Returns the dumped text, or None after a violation."""
+    clsname = case['cls']
+    tag = ctor_tag(case)
+    bad = ctor_compare(ctx, case, obj, par, stage, tally=True)
+    if bad:
+        ctx.violation('%s/%s' % (tag, bad[0]), '%s: %s; %s; handed over: %r'
+                      % (ctor_describe(case), stage, bad[1], ctor_doc(case)))
+        return None
+    if case['behavior']:
+        obj.size_field_behavior = case['behavior']
+    state = ctor_state(case, obj, par)
+    if not dump_and_judge(ctx, cls, clsname, obj, state, case.get('dump_via', 'str'), 'parsed', '/' + tag):
+        return None
+    return state['last_dump']
+
+
+def count_ctor(ctx, case):
+    api, src, call = case['api'], case['src'], case['call']
+    cfg = tag_of(case['cls'], case['behavior'])
+    ctx.count('ctor:case')
+    ctx.count('ctor:api:%s' % api)
+    ctx.count('ctor:%s:config:%s' % (api, cfg))
+    ctx.count('ctor:%s:src:%s' % (api, src))
+    ctx.count('ctor:%s:call:%s' % (api, call))
+    ctx.count('ctor:%s:src-class:%s:%s-call' % (api, src_class(src), call_class(call)))
+    ctx.count('ctor:%s:config-src-class:%s:%s' % (api, cfg, src_class(src)))
+    if case.get('signed'):
+        ctx.count('ctor:%s:signed' % api)
+        ctx.count('ctor:%s:signed:%s:%s-call' % (api, src_class(src), call_class(call)))
+    if api == 'iter':
+        ctx.count('ctor:iter:paragraphs:%d' % len(case['pars']))
+        ctx.count('ctor:iter:consume:%s' % case.get('consume'))
+        ctx.count('ctor:iter:consume:%s:%s' % (case.get('consume'), src_class(src)))
+    if case.get('close'):
+        ctx.count('ctor:close:%s' % case['close'])
+    if not case.get('signed'):
+        if case.get('lead'):
+            ctx.count('ctor:lead:blank-line')
+        ctx.count('ctor:tail:%s' % case.get('tail'))
+    for p in case['pars']:
+        for f, form in p['forms'].items():
+            ctx.count('ctor:layout:%s' % form)
+            ctx.count('ctor:layout:%s:%s' % (form, src_class(src)))
+    wl = case.get('wl')
+    if wl and wl[0] == 'ctor-enum':
+        ctx.count('ctor-enum:%s:%s:%s' % (api, src, call))
+        ctx.count('ctor-enum:%s:%s' % (api, cfg))
+
+
+def run_ctor(ctx, deb822, cls, clsname, case):
+    table = mv.DOC[clsname]
+    api, src, call = case['api'], case['src'], case['call']
+    count_ctor(ctx, case)
+    if any([f for f in table if f not in p['expect']] and any(len(v) >= 2 for v in p['expect'].values())
+           for p in case['pars']):
+        ctx.nontrivial()
+    if src.startswith('map:'):
+        run_ctor_map(ctx, deb822, cls, clsname, case)
+        return
+    doc = ctor_doc(case)
+    tag = ctor_tag(case)
+    if api == 'ctor':
+        par = case['pars'][0]
+        x, close = ctor_source(ctx, src, doc)
+        try:
+            try:
+                obj = ctor_invoke(cls, api, call, x, case)
+            except Exception as e:
+                ctx.violation('%s/raises-%s' % (tag, type(e).__name__),
+                              '%s raised %r; handed over: %r' % (ctor_describe(case), e, doc))
+                return
+            if close and case.get('close') == 'early':
+                close()
+                close = None
+            txt = ctor_paragraph(ctx, deb822, cls, case, obj, par, 'constructed object')
+        finally:
+            if close:
+                close()
+        if txt is None:
+            return
+        ctor_monitors(ctx, case)
+        # the dumped text once more through the SAME spelling
+        x, close = ctor_source(ctx, src, txt)
+        try:
+            try:
+                obj2 = ctor_invoke(cls, api, call, x, case)
+            except Exception as e:
+                ctx.violation('%s/raises-%s/on-the-dumped-text' % (tag, type(e).__name__),
+                              '%s raised %r on the text the first object dumped: %r' % (ctor_describe(case), e, txt))
+                return
+            bad = ctor_compare(ctx, case, obj2, par, 'dumped text parsed through the same spelling')
+        finally:
+            if close:
+                close()
+        if bad:
+            ctx.violation('%s/%s/on-the-dumped-text' % (tag, bad[0]),
+                          '%s: %s; dumped text: %r' % (ctor_describe(case), bad[1], txt))
+            return
+        ctx.mon('M.ctor.respell')
+        return
+    run_ctor_iter(ctx, deb822, cls, clsname, case, doc)
+
+
+def ctor_monitors(ctx, case, n=1):
+    src, call = case['src'], case['call']
+    ctx.mon('M.ctor' if case['api'] == 'ctor' else 'M.iter', n)
+    sc = src_class(src)
+    ctx.mon('M.ctor.%s' % sc, n)
+    if call_class(call) == 'keyword':
+        ctx.mon('M.ctor.kw', n)
+        ctx.mon('M.ctor.kw.%s' % sc, n)
+    if case.get('fields') is not None:
+        ctx.mon('M.ctor.fields', n)
+
+
+def _iterate(ctx, cls, case, doc, each):
+    """Run iter_paragraphs in the spelling under test over `doc`; `each(index, obj)` returns False to stop.
+    Returns None after a violation, else the number of paragraphs yielded."""
+    api, src, call = 'iter', case['src'], case['call']
+    tag = ctor_tag(case)
+    limit = len(case['pars']) + 2
+    x, close = ctor_source(ctx, src, doc)
+    n = 0
+    try:
+        with warnings.catch_warnings(record=True) as caught:
+            if call == 'kw+apt-requested':
+                warnings.simplefilter('always')
+            try:
+                it = ctor_invoke(cls, api, call, x, case)
+                how = case.get('consume', 'list')
+                if how == 'list':
+                    objs = list(itertools.islice(it, limit))
+                    for obj in objs:
+                        if not each(n, obj):
+                            return None
+                        n += 1
+                elif how == 'for':
+                    for obj in it:
+                        if not each(n, obj):
+                            return None
+                        n += 1
+                        if n >= limit:
+                            break
+                else:
+                    it = iter(it)
+                    while n < limit:
+                        try:
+                            obj = next(it)
+                        except StopIteration:
+                            break
+                        if not each(n, obj):
+                            return None
+                        n += 1
+            except Exception as e:
+                ctx.violation('%s/raises-%s' % (tag, type(e).__name__),
+                              '%s raised %r after %d paragraph(s); handed over: %r\n%s'
+                              % (ctor_describe(case), e, n, doc, traceback.format_exc(limit=6)))
+                return None
+        if call == 'kw+apt-requested':
+            ctx.count('ctor:iter:apt-requested:warnings:%d' % min(len(caught), 2))
+    finally:
+        if close:
+            close()
+    return n
+
+
+def run_ctor_iter(ctx, deb822, cls, clsname, case, doc):
+    pars = case['pars']
+    tag = ctor_tag(case)
+    dumps = []
+
+    def each(i, obj):
+        if i >= len(pars):
+            ctx.violation('%s/more-paragraphs-than-written' % tag,
+                          '%s yielded paragraph number %d (%r) from a document of %d paragraph(s): %r'
+                          % (ctor_describe(case), i + 1, dict(obj), len(pars), doc))
+            return False
+        txt = ctor_paragraph(ctx, deb822, cls, case, obj, pars[i], 'paragraph %d of %d' % (i + 1, len(pars)))
+        if txt is None:
+            return False
+        dumps.append(txt)
+        return True
+
+    n = _iterate(ctx, cls, case, doc, each)
+    if n is None:
+        return
+    if n != len(pars):
+        ctx.violation('%s/paragraph-lost' % tag, '%s yielded %d paragraph(s) from a document of %d: %r'
+                      % (ctor_describe(case), n, len(pars), doc))
+        return
+    ctor_monitors(ctx, case, n)
+    ctx.mon('M.iter.count')
+    # the dumped paragraphs as one document, once more through the same spelling
+    doc2 = '\n'.join(dumps)
+
+    def again(i, obj):
+        if i >= len(pars):
+            ctx.violation('%s/more-paragraphs-than-written/on-the-dumped-text' % tag,
+                          '%s yielded paragraph number %d from the %d dumped paragraph(s): %r'
+                          % (ctor_describe(case), i + 1, len(pars), doc2))
+            return False
+        bad = ctor_compare(ctx, case, obj, pars[i], 'dumped document parsed through the same spelling')
+        if bad:
+            ctx.violation('%s/%s/on-the-dumped-text' % (tag, bad[0]), '%s: paragraph %d: %s; dumped document: %r'
+                          % (ctor_describe(case), i + 1, bad[1], doc2))
+            return False
+        return True
+
+    n2 = _iterate(ctx, cls, case, doc2, again)
+    if n2 is None:
+        return
+    if n2 != len(pars):
+        ctx.violation('%s/paragraph-lost/on-the-dumped-text' % tag,
+                      '%s yielded %d paragraph(s) from the %d dumped ones: %r' % (ctor_describe(case), n2, len(pars), doc2))
+        return
+    ctx.mon('M.ctor.respell')
+
+
+def _map_snapshot(m):
+    return [(k, m[k]) for k in m]
+
+
+def run_ctor_map(ctx, deb822, cls, clsname, case):
+    table = mv.DOC[clsname]
+    mtype = case['src'][4:]
+    par = case['pars'][0]
+    text = par['text']
+    tag = ctor_tag(case)
+    ctx.count('ctor:map:%s:driven' % mtype)
+    ctx.count('ctor:map-call:%s:%s' % (mtype, case['call']))
+    # control: the same text parsed directly must show the model's records - otherwise it is the ordinary finding
+    try:
+        direct = cls(text)
+        bad = compare_records(direct, table, par['expect'])
+    except Exception as e:
+        ctx.violation('parse-raises/%s' % type(e).__name__, 'parsing %r raised %r' % (text, e))
+        return
+    if bad:
+        ctx.violation('parse-%s' % bad[1], '%s(str input): %s; text=%r' % (clsname, bad[2], text))
+        return
+    m = ctor_mapping(deb822, cls, mtype, text)
+    records_inside = mtype == 'same-class'
+    snap = None if records_inside else _map_snapshot(m)
+    if snap is not None and snap != [tuple(kv) for kv in raw_fields(text)]:
+        # the generic paragraph does not hold the raw text the way this harness spells it: not this property's
+        # business (C02 / C09 own generic paragraphs) - nothing is demanded of the case
+        ctx.count('ctor:map:%s:source-does-not-hold-the-raw-text' % mtype)
+        return
+    try:
+        obj = ctor_invoke(cls, 'ctor', case['call'], m, case)
+    except Exception as e:
+        ctx.count('ctor:map:%s:refused:%s' % (mtype, type(e).__name__))
+        return
+    ctx.count('ctor:map:%s:accepted' % mtype)
+    txt = ctor_paragraph(ctx, deb822, cls, case, obj, par, 'object constructed from the mapping')
+    if txt is None:
+        return
+    ctor_monitors(ctx, case)
+    ctx.mon('M.ctor.map')
+    if records_inside:
+        return
+    now = _map_snapshot(m)
+    if now != snap:
+        ctx.violation('%s/mapping-argument-changed-by-the-constructor' % tag,
+                      '%s: the mapping held %r before the call and holds %r after it' % (ctor_describe(case), snap, now))
+        return
+    ctx.mon('M.ctor.map.source-unchanged')
+    then = case.get('then', 'none')
+    present = sorted(par['expect'])
+    if then == 'change-source' and mtype in MUTABLE_MAPS and present:
+        # the caller goes on using ITS mapping: the paragraph was made from the initial pairs
+        key = [kv[0] for kv in raw_fields(text) if kv[0].lower() == present[0]][0]
+        names = table[present[0]]
+        if len(par['expect']) % 2:
+            m[key] = '\n ' + ' '.join(['0'] * len(names))
+        else:
+            del m[key]
+        bad = ctor_compare(ctx, case, obj, par, 'after the caller changed its own mapping')
+        if bad:
+            ctx.violation('%s/%s/after-the-caller-changed-its-mapping' % (tag, bad[0]),
+                          '%s: %s' % (ctor_describe(case), bad[1]))
+            return
+        ctx.mon('M.ctor.map.independent')
+    elif then == 'change-object' and present:
+        key = present[0]
+        if par['forms'][key] == 'single':
+            del obj[key]
+        else:
+            obj[key].append(dict(zip(table[key], ['0'] * len(table[key]))))
+        now = _map_snapshot(m)
+        if now != snap:
+            ctx.violation('%s/mapping-argument-changed-by-changing-the-paragraph' % tag,
+                          '%s: the mapping held %r, after the paragraph was changed it holds %r'
+                          % (ctor_describe(case), snap, now))
+            return
+        ctx.mon('M.ctor.map.independent')
+    # the dumped text as a mapping of the same type, once more through the same spelling
+    m2 = ctor_mapping(deb822, cls, mtype, txt)
+    try:
+        obj2 = ctor_invoke(cls, 'ctor', case['call'], m2, case)
+    except Exception as e:
+        ctx.violation('%s/raises-%s/on-the-dumped-text' % (tag, type(e).__name__),
+                      '%s accepted the first mapping but raised %r on one made the same way from its dump %r'
+                      % (ctor_describe(case), e, txt))
+        return
+    bad = ctor_compare(ctx, case, obj2, par, 'mapping made from the dumped text')
+    if bad:
+        ctx.violation('%s/%s/on-the-dumped-text' % (tag, bad[0]), '%s: %s; dumped text: %r'
+                      % (ctor_describe(case), bad[1], txt))
+        return
+    ctx.mon('M.ctor.respell')
+
+
 def run_case(ctx, case):
     from debian import deb822
     clsname = case['cls']
@@ -3472,6 +4301,9 @@ def run_case(ctx, case):
 
     if mode == 'route':
         run_route(ctx, deb822, cls, clsname, case)
+        return
+    if mode == 'ctor':
+        run_ctor(ctx, deb822, cls, clsname, case)
         return
 
     if mode == 'text':
